@@ -105,7 +105,7 @@ class C06(Check):
                    'payload, a non-importable emitted value and flag / constant mismatches are',
                    'the clause "interface class and features match the implementing class" is a pure '
                    'configuration->string mapping; it is checked in generated mode as a rider']
-    PROBES = ('c06.generated-mode', 'c06.automatic-communicator', 'c06.shipped-mode', 'c06.must-reject', 'c06.must-accept', 'c06.constant',
+    PROBES = ('c06.generated-mode', 'c06.automatic-properties-configured', 'c06.automatic-communicator', 'c06.shipped-mode', 'c06.must-reject', 'c06.must-accept', 'c06.constant',
               'c06.undescribed-probed', 'c06.describe-repeated', 'c06.emitted-values-checked', 'c06.unexported-module',
               'c06.export-configured', 'c06.limits-set-at-start',
               'c06.driver-glitch', 'c06.features-compared')
@@ -163,6 +163,14 @@ class C06(Check):
                 d['all_features'] = d['features'] + list(s0.get('features', ()))
                 specs.insert(specs.index(s0) + 1, d)
             shape['specs'] = specs
+            # a section copied from somewhere else, which states the automatic properties (of another class)
+            shape['auto_props'] = {}
+            for sp_ in specs:
+                if rng.random() < 0.2:
+                    shape['auto_props'][sp_['name']] = rng.choice([
+                        {'interface_classes': ['Drivable']}, {'interface_classes': []}, {'features': ['HasOffset']},
+                        {'features': []}, {'implementation': 'frappy_demo.cryo.Cryostat'},
+                        {'interface_classes': ['Readable'], 'features': ['HasGenA'], 'implementation': 'x.Y'}])
             # a module configured with an uri (first or last section of the configuration)
             shape['auto_io'] = rng.choice([None, None, 'first', 'last'])
         else:
@@ -180,6 +188,10 @@ class C06(Check):
             drv = genmod.Driver(sim)
             node = nodeworld.Node(world, 'n', shape['specs'], drv, start=False)
             ctx['cleanup'].append(node.forget)
+            for mname_, props_ in (shape.get('auto_props') or {}).items():
+                if mname_ in node.srv.module_cfg:
+                    sim.count('c06.automatic-properties-configured')
+                    node.srv.module_cfg[mname_].update(props_)
             if shape.get('auto_io'):
                 sim.count('c06.automatic-communicator')
                 HasIO.ioDict.clear()
